@@ -293,6 +293,36 @@ def locate_failure(log):
     return {'file': f, 'line': line, 'statement': stmt, 'error': err.strip()[:600]}
 
 
+def audit_sources():
+    """The development declares no axiom and switches off no check: every .v file is scanned on every run (fail-closed).
+    Returns a list of offending (file, line, text)."""
+    bad = []
+    allowed_axioms = set()
+    for dirpath, dirs, files in os.walk(COQ):
+        for fn in files:
+            if not fn.endswith('.v'):
+                continue
+            path = os.path.join(dirpath, fn)
+            depth = 0
+            in_comment = 0
+            for i, line in enumerate(open(path, encoding='utf-8', errors='replace'), 1):
+                t = line.strip()
+                code = re.sub(r'\(\*.*?\*\)', '', t)            # one-line comments
+                if re.match(r'Section\s+\w+\s*\.', code):
+                    depth += 1
+                elif re.match(r'End\s+\w+\s*\.', code):
+                    depth = max(0, depth - 1)
+                if re.match(r'(Axiom|Axioms|Parameter|Parameters|Conjecture|Conjectures)\b', code) or \
+                        re.search(r'\b(Admitted|Admit Obligations)\b|\badmit\s*\.|\bgive_up\b', code) or \
+                        re.search(r'Unset\s+(Guard Checking|Positivity Checking|Universe Checking)|bypass_check|type-in-type|impredicative-set', code) or \
+                        (depth == 0 and re.match(r'(Variable|Variables|Hypothesis|Hypotheses|Context)\b', code)):
+                    bad.append((os.path.relpath(path, COQ), i, t[:120]))
+    proj = os.path.join(COQ, '_CoqProject')
+    if os.path.exists(proj) and re.search(r'type-in-type|impredicative-set', open(proj).read()):
+        bad.append(('_CoqProject', 0, 'forbidden option'))
+    return bad
+
+
 def prove(prop_id, coq_files, scratch, thorough=False):
     """Build Properties/<id>.vo (full cone), re-run the property file to capture Print Assumptions."""
     names = count_obligations(coq_files)
@@ -303,6 +333,14 @@ def prove(prop_id, coq_files, scratch, thorough=False):
            'checker_cmd': 'make -C /verif/coq %s  (coq_makefile project, full .vo build, Coq 8.16.1); '
                           'coqc Properties/%s.v for Print Assumptions' % (target, prop_id),
            'assumptions': [], 'axioms': [], 'make_s': None}
+    offending = audit_sources()
+    if offending:
+        ok = False
+        res['ok'] = False
+        res['failure'] = {'file': offending[0][0], 'statement': 'source audit (axiom / admitted / checks switched off / variable outside a section)',
+                          'error': repr(offending[:5])}
+        res['make_s'] = round(time.time() - t0, 1)
+        return res
     if not ok:
         res['failure'] = locate_failure(log) or {'file': None, 'statement': None, 'error': log[-800:]}
         # discharged = statements in files that did compile
